@@ -45,6 +45,8 @@ def tasks(tier, seed):
         n = 2 if tier == "quick" else 8
         t += [{"sub": "pairs_cfg", "shard": i, "nshard": n, "cfg": c} for i in range(n)]
     t += [{"sub": "listing", "shard": 0}]
+    t += [{"sub": "autoreduce", "shard": i} for i in range(2)]
+    t += [{"sub": "checkdeco", "shard": i} for i in range(2)]
     return t
 
 
@@ -457,6 +459,170 @@ def run_listing(task, tier, seed, col):
     col.exhaustive = tier == "thorough"
 
 
+# ---- auto_reduce_dimensions: products / quotients / powers of quantities stay convertible (closure under the configuration)
+
+def _autoreduce_strategy():
+    R = env.R()
+    names = list(env.unit_names("mult"))
+    byd = {}
+    for n in names:
+        byd.setdefault(_dimkey(R.resolve(n).dim), []).append(n)
+    # dimension classes that are integer powers of one another (length/area/volume, time/frequency ...) are the interesting ones
+    def powers_of(n):
+        d = R.resolve(n).dim
+        out = []
+        for k in (-2, -1, 2, 3):
+            dk = _dimkey({x: e * k for x, e in d.items()})
+            out += byd.get(dk, [])
+        return out
+
+    @st.composite
+    def strat(draw):
+        a = draw(st.sampled_from(names))
+        rel = powers_of(a)
+        b = draw(st.sampled_from(rel)) if rel and draw(st.integers(0, 3)) else draw(st.sampled_from(names))
+        op = draw(st.sampled_from(["mul", "div", "rdiv", "pow"]))
+        return {"a": a, "b": b, "op": op, "k": draw(st.sampled_from([2, -1, 3]))}
+
+    return strat()
+
+
+def case_autoreduce(case, col=None):
+    R = env.R()
+    ureg = env.ureg("float", auto_reduce_dimensions=True)
+    a, b, op, k = case["a"], case["b"], case["op"], case["k"]
+    da, db = R.resolve(a).dim, R.resolve(b).dim
+    if op == "mul":
+        want = {x: da.get(x, 0) + db.get(x, 0) for x in set(da) | set(db)}
+    elif op == "div":
+        want = {x: da.get(x, 0) - db.get(x, 0) for x in set(da) | set(db)}
+    elif op == "rdiv":
+        want = {x: db.get(x, 0) - da.get(x, 0) for x in set(da) | set(db)}
+    else:
+        want = {x: e * k for x, e in da.items()}
+    want = {x: e for x, e in want.items() if e != 0}
+    if col is not None:
+        prop = bool(da) and bool(db) and da != db and set(da) == set(db)
+        col.case(("ar", a, b, op, k), prop or op == "pow", sample=case, cls="power_related_dimensions" if prop else "other")
+    qa, qb = ureg.Quantity(3, a), ureg.Quantity(2, b)
+    fn = {"mul": lambda: qa * qb, "div": lambda: qa / qb, "rdiv": lambda: qb / qa, "pow": lambda: qa ** k}[op]
+    s, q = attempt(fn)
+    if s == "err":
+        raise Violation(f"autoreduce:{op}_raised:{exc_class(q)}", f"Q(3,{a!r}) {op} Q(2,{b!r}) with auto_reduce_dimensions raised {type(q).__name__}: {q}")
+    got = env.uc_to_dict(q.dimensionality)
+    if got != want:
+        raise Violation(f"autoreduce:{op}_wrong_dimension", f"Q(3,{a!r}) {op} Q(2,{b!r}): dimensionality {got}, R {want}")
+    # the result must still convert to the plain product of root units
+    plain = env.ureg("float")
+    pa, pb = plain.Quantity(3, a), plain.Quantity(2, b)
+    ref = {"mul": lambda: pa * pb, "div": lambda: pa / pb, "rdiv": lambda: pb / pa, "pow": lambda: pa ** k}[op]().to_root_units()
+    s, r = attempt(lambda: q.to(ref.units))
+    if s == "err":
+        raise Violation(f"autoreduce:{op}_result_unusable:{exc_class(r)}", f"{a} {op} {b}: converting the result to the root units of the plain product raised {r!r}")
+    # value preservation under auto-reduction is C15's clause
+
+
+def run_autoreduce(task, tier, seed, col):
+    hyp_search(col, _autoreduce_strategy(), lambda c: case_autoreduce(c, col), max_examples=500 if tier == "quick" else 8000,
+               seed=seed * 71 + task["shard"])
+
+
+# ---- the ureg.check decorator with several parameters, defaults and keyword arguments
+
+def _checkdeco_strategy():
+    R = env.R()
+    names = list(env.unit_names("mult"))
+
+    @st.composite
+    def strat(draw):
+        n = draw(st.integers(1, 4))
+        params = []
+        for i in range(n):
+            decl = draw(st.sampled_from(names))
+            has_default = draw(st.booleans()) if i > 0 else False
+            if has_default and not (params and not params[-1]["default"]) and i > 0 and not params[-1]["default"]:
+                pass
+            params.append({"decl": decl if draw(st.integers(0, 5)) else None, "default": None})
+        # defaults only on a suffix of the parameters (Python's rule)
+        first_default = draw(st.integers(1, n))
+        for i in range(first_default, n):
+            params[i]["default"] = draw(st.sampled_from(names))
+        args = []
+        for i in range(n):
+            how = draw(st.sampled_from(["pos", "kw", "omit"])) if params[i]["default"] else draw(st.sampled_from(["pos", "kw"]))
+            R_ = env.R()
+            if params[i]["decl"] and draw(st.booleans()):
+                same = [m for m in names if R_.resolve(m).dim == R_.resolve(params[i]["decl"]).dim]
+                unit = draw(st.sampled_from(same))
+            else:
+                unit = draw(st.sampled_from(names))
+            args.append({"how": how, "unit": unit})
+        # positional arguments must form a prefix
+        seen_nonpos = False
+        for a in args:
+            if a["how"] != "pos":
+                seen_nonpos = True
+            elif seen_nonpos:
+                a["how"] = "kw"
+        return {"params": params, "args": args}
+
+    return strat()
+
+
+def case_checkdeco(case, col=None):
+    import inspect
+    import pint
+
+    R = env.R()
+    ureg = env.ureg("float")
+    params, args = case["params"], case["args"]
+    n = len(params)
+    names_ = [f"p{i}" for i in range(n)]
+    sig = inspect.Signature([
+        inspect.Parameter(nm, inspect.Parameter.POSITIONAL_OR_KEYWORD,
+                          default=(ureg.Quantity(1, p["default"]) if p["default"] else inspect.Parameter.empty))
+        for nm, p in zip(names_, params)])
+
+    def recorder(*a, **kw):
+        return "called"
+
+    recorder.__signature__ = sig
+    dims = [ureg.get_dimensionality(p["decl"]) if p["decl"] else None for p in params]
+    s, f = attempt(lambda: ureg.check(*dims)(recorder))
+    if s == "err":
+        raise Violation(f"checkdeco:decoration_raised:{exc_class(f)}", f"{f!r}")
+    pos, kw = [], {}
+    effective = []
+    for nm, p, a in zip(names_, params, args):
+        if a["how"] == "pos":
+            pos.append(ureg.Quantity(2, a["unit"]))
+            effective.append(a["unit"])
+        elif a["how"] == "kw":
+            kw[nm] = ureg.Quantity(2, a["unit"])
+            effective.append(a["unit"])
+        else:
+            effective.append(p["default"])
+    bad = [i for i, (p, u) in enumerate(zip(params, effective)) if p["decl"] and R.resolve(p["decl"]).dim != R.resolve(u).dim]
+    if col is not None:
+        col.case(("cd", str(case)), any(a["how"] != "pos" for a in args) and n > 1, sample=case, cls="should_raise" if bad else "should_pass")
+        if any(a["how"] == "omit" for a in args) and any(a["how"] == "kw" for a in args):
+            col.count("default_skipped_then_keyword")
+    s, r = attempt(f, *pos, **kw)
+    if bad:
+        if s == "ok":
+            raise Violation("checkdeco:accepted_wrong_dimension", f"params {params}, call {args}: parameter(s) {bad} have the wrong dimension but the call went through")
+        if not isinstance(r, pint.DimensionalityError):
+            raise Violation(f"checkdeco:wrong_exception:{exc_class(r)}", f"{r!r}")
+    else:
+        if s == "err":
+            raise Violation(f"checkdeco:refused_correct_call:{exc_class(r)}", f"params {params}, call {args}: raised {type(r).__name__}: {r}")
+
+
+def run_checkdeco(task, tier, seed, col):
+    hyp_search(col, _checkdeco_strategy(), lambda c: case_checkdeco(c, col), max_examples=400 if tier == "quick" else 6000,
+               seed=seed * 73 + task["shard"])
+
+
 # ------------------------------------------------------------------------------------- dispatch
 
 def run_task(task, tier, seed, col):
@@ -473,6 +639,10 @@ def run_task(task, tier, seed, col):
         run_compound(task, tier, seed, col)
     elif sub == "listing":
         run_listing(task, tier, seed, col)
+    elif sub == "autoreduce":
+        run_autoreduce(task, tier, seed, col)
+    elif sub == "checkdeco":
+        run_checkdeco(task, tier, seed, col)
     else:
         raise ValueError(sub)
 
@@ -488,4 +658,8 @@ def replay(sub, case):
         return case_compound(case)
     if sub == "listing":
         return case_listing(case)
+    if sub == "autoreduce":
+        return case_autoreduce(case)
+    if sub == "checkdeco":
+        return case_checkdeco(case)
     raise ValueError(sub)
